@@ -216,6 +216,8 @@ int fiber_io_unlock_thread() {
 // compiler computes its address once per function and reuses it. a fiber which
 // waited in fiber_wait_for_event() may have been resumed on another kernel
 // thread, so errno must be re-located after every wait: never inline this
+static int __attribute__((noinline)) fiber_io_errno(void) { return errno; }
+
 static int __attribute__((noinline)) fiber_io_would_block(void) {
   const int error = errno;
   return error == EWOULDBLOCK || error == EAGAIN;
@@ -501,7 +503,13 @@ int connect(int sockfd, const struct sockaddr* addr, socklen_t addrlen) {
   }
 
   int ret = fibershim_connect(sockfd, addr, addrlen);
-  if (ret < 0 && errno == EINPROGRESS && should_block(sockfd)) {
+  // a non-blocking connect to a unix socket whose listener's backlog is full
+  // fails with EAGAIN (never EINPROGRESS). a blocking connect would wait
+  while (ret < 0 && fiber_io_would_block() && should_block(sockfd)) {
+    fiber_sleep(0, 1000);
+    ret = fibershim_connect(sockfd, addr, addrlen);
+  }
+  if (ret < 0 && fiber_io_errno() == EINPROGRESS && should_block(sockfd)) {
     if (!fiber_wait_for_event(sockfd, FIBER_POLL_OUT)) {
       return -1;
     }
